@@ -385,6 +385,7 @@ class Watch:
         self.sim_type = None
         self.held = None
         self.E_held = None
+        self.E_held_ref = None
         self.E_min = None
         self.counter = 0
         self.cur = None
@@ -434,12 +435,14 @@ class Watch:
         self.cur = {"type": v, "judged": False}
 
     # ---- component monitors ------------------------------------------------------------
-    def on_chi2(self, config, value):
+    def on_chi2(self, config, value, ref=None):
+        """ref: the reference definition's value for this configuration (None when undefined: a nearest-neighbour tie)."""
         ctx = self.ctx
         config = np.array(config, dtype=float, copy=True)
         if self.phase == "init":
             self.held = config
             self.E_held = value
+            self.E_held_ref = ref
             self.E_min = value
             self.counter = 0
             self.phase = "loop"
@@ -449,6 +452,7 @@ class Watch:
         cur = self.cur
         cur["proposal"] = config
         cur["E_new"] = value
+        cur["E_ref"] = ref
         if self.unobservable:
             return
         held = self.held
@@ -509,6 +513,20 @@ class Watch:
         if not (e1 == cur["E_new"]):
             ctx.violate("C09", "judged-wrong-proposal-energy", f"the acceptance test received {e1!r}; the proposal's measure is "
                                                                f"{cur['E_new']!r}")
+        # "judged against the overlap measure of the configuration currently held": the two numbers compared must be THE
+        # measure (C08's definition) of the held configuration and of the proposal as they are now, not values a stateful
+        # calculator produced under other circumstances
+        for what, got, ref in (("held configuration", e0, getattr(self, "E_held_ref", None)), ("proposal", e1, cur.get("E_ref"))):
+            if ref is not None:
+                try:
+                    bad = not math.isfinite(float(got)) or abs(float(got) - ref) > 1e-9 * max(abs(ref), 1e-300)
+                except Exception:
+                    bad = True
+                if bad:
+                    ctx.violate("C09", "energy-is-not-the-measure",
+                                f"iteration {self.iterations}: the acceptance test compared {got!r} for the {what}, whose overlap "
+                                f"measure by the reference definition is {ref!r}", key=what.split()[0])
+                    break
         # the rule
         if e1 <= e0:
             expect = True
@@ -528,6 +546,7 @@ class Watch:
         if result:
             self.held = cur["proposal"]
             self.E_held = cur["E_new"]
+            self.E_held_ref = cur.get("E_ref")
             if self.E_held < self.E_min:
                 self.E_min = self.E_held
                 self.expected_prints.append(self.E_min)
@@ -573,7 +592,7 @@ def make_monitors(ctx, watch, real):
                 return val
             if watch.degenerate and not np.all(np.isfinite(arr_before)):
                 ctx.probe("non_finite_proposal_evaluated")
-                watch.on_chi2(arr_before, val)
+                watch.on_chi2(arr_before, val, None)
                 return val
             want, k, ambiguous = fast_chi2(self._fixed, arr_before, self._restr)
             if ambiguous:
@@ -587,7 +606,7 @@ def make_monitors(ctx, watch, real):
                     ctx.violate("C08", "chi2-value", f"measure = {fval!r}, reference definition gives {want!r} "
                                                      f"(k={k}, {len(self._restr)} restraints, {len(self._fixed)}x{len(arr_before)} atoms)",
                                 key="none" if not self._restr else "restr")
-            watch.on_chi2(arr_before, val)
+            watch.on_chi2(arr_before, val, None if ambiguous else want)
             return val
 
     def mon_accept(energy_0, energy_1, *a, **kw):
